@@ -193,11 +193,12 @@ def _prims(seed, col, aes, R, np):
     st = ((i + 17 * p) % 256).astype(np.uint8)                 # every value at every position
     sb = np.array(R.SBOX, dtype=np.uint8); isb = np.array(R.INV_SBOX, dtype=np.uint8)
     sr = np.array(R.shift_rows(list(range(16)))); isr = np.array(R.inv_shift_rows(list(range(16))))
-    for dt in ('uint8', 'int16', 'uint16', 'int32', 'int64', 'uint64'):
-        s = st.astype(dt); s0 = s.copy()
-        for name, f, exp in (('sub_bytes', aes.sub_bytes, sb[st]), ('inv_sub_bytes', aes.inv_sub_bytes, isb[st]),
-                             ('shift_rows', aes.shift_rows, st[:, sr]), ('inv_shift_rows', aes.inv_shift_rows, st[:, isr]),
-                             ('mix_columns', aes.mix_columns, R.mix_columns_v(st)), ('inv_mix_columns', aes.inv_mix_columns, R.inv_mix_columns_v(st))):
+    for dt in ('uint8', 'int16', 'uint16', 'int32', 'int64', 'uint64', 'int8'):
+        base = st if dt != 'int8' else (st & 0x7f)                # a legal byte array in int8 holds 0..127; the images are bytes up to 255 all the same
+        s = base.astype(dt); s0 = s.copy()
+        for name, f, exp in (('sub_bytes', aes.sub_bytes, sb[base]), ('inv_sub_bytes', aes.inv_sub_bytes, isb[base]),
+                             ('shift_rows', aes.shift_rows, base[:, sr]), ('inv_shift_rows', aes.inv_shift_rows, base[:, isr]),
+                             ('mix_columns', aes.mix_columns, R.mix_columns_v(base)), ('inv_mix_columns', aes.inv_mix_columns, R.inv_mix_columns_v(base))):
             for view in ('2d', '1d', '3d'):
                 a = s if view == '2d' else (s[37] if view == '1d' else s.reshape(16, 16, 16))
                 e = exp if view == '2d' else (exp[37] if view == '1d' else exp.reshape(16, 16, 16))
